@@ -440,13 +440,14 @@ class SAMIWriter(BaseWriter):
 
         :rtype: BeautifulSoup
         """
-        time = caption.start // 1000
+        # whole milliseconds (caption times can be floats, e.g. from SCC)
+        time = int(caption.start // 1000)
 
-        if self.last_time and time != self.last_time:
+        if self.last_time is not None and time != self.last_time:
             sami = self._recreate_blank_tag(
                 sami, caption, lang, primary, captions)
 
-        self.last_time = caption.end // 1000
+        self.last_time = int(caption.end // 1000)
 
         sami, sync = self._recreate_sync(sami, lang, primary, time)
 
